@@ -40,6 +40,7 @@ def gen_program(item):
     rng = random.Random(item['pseed'])
     return progen.gen_spec(rng, item['profile'], item.get('n_min', 3), item.get('n_max', 8),
                            fail_p=item.get('fail_p', 0.15), modes=tuple(item.get('modes', ('coro',))),
+                           cbraise_p=item.get('cbraise_p', 0.0),
                            retry_p=item.get('retry_p', 0.3), falsy_p=item.get('falsy_p', 0.15),
                            cb_p=item.get('cb_p', 0.3), hash_fail_p=item.get('hash_fail_p', 0.08))
 
@@ -115,6 +116,9 @@ def worker(chunk):
         k = json.dumps(tr['spec'], sort_keys=True)
         sem = sems[k]
         infrag, why = fragment.in_fragment(tr['graph'])
+        if tr['spec'].get('cbraise'):
+            # a failing collaborator: Sem does not describe it, and C14 / C19 speak of collaborators that do not raise
+            infrag, why = False, 'cb_raise'
         viol = {}
         want = item.get('monitors') or list(monitors.ALL)
         for pid in want:
@@ -122,7 +126,7 @@ def worker(chunk):
             if f is None:
                 continue
             r = f(tr, sem if infrag and 'error' not in sem else None)
-            if r and (infrag or pid in monitors.EVERYWHERE):
+            if r and (infrag or pid in monitors.EVERYWHERE) and not (why == 'cb_raise' and pid in ('C14', 'C19')):
                 viol[pid] = r[:3]
         if monitors.plain_graph(tr['graph']) and 'error' not in sem:
             # the hypotheses of the plain-fragment theorems hold on this program, and the reference evaluator
@@ -224,7 +228,7 @@ def corpus_items(monitors_=None):
 PROFILES = {
     'C01': dict(monitors=['C01', 'C02'], profiles=('plain', 'switch', 'oneof', 'rec', 'mixed', 'shared'), q=1800, t=20000),
     'C02': dict(monitors=['C02'], profiles=('plain', 'switch', 'oneof', 'rec', 'mixed', 'shared'), q=1800, t=20000,
-                fail_p=0.3),
+                fail_p=0.3, cbraise_p=0.3),
     'C03': dict(monitors=['C03'], profiles=('plain', 'switch', 'oneof', 'rec', 'mixed', 'shared'), q=1800, t=20000),
     'C04': dict(monitors=['C04'], profiles=('shared', 'mixed', 'rec', 'shared', 'mixed', 'switch', 'oneof', 'plain'), q=1800, t=20000),
     'C05': dict(monitors=['C05'], profiles=('plain', 'oneof', 'mixed', 'switch', 'rec', 'shared'), q=1800, t=20000,
@@ -235,7 +239,7 @@ PROFILES = {
     'C10': dict(monitors=['C10', 'C01'], profiles=('oneof', 'mixed', 'shared'), q=1800, t=20000, fail_p=0.3),
     'C11': dict(monitors=['C11', 'C01', 'C03'], profiles=('rec', 'mixed', 'shared'), q=1800, t=20000),
     'C13': dict(monitors=['C13'], profiles=('plain', 'switch', 'oneof', 'rec', 'mixed', 'shared'), q=500, t=5000,
-                cancel=True),
+                cancel=True, cbraise_p=0.15),
     'C14': dict(monitors=['C14'], profiles=('plain', 'switch', 'oneof', 'rec', 'mixed', 'shared'), q=1800, t=20000,
                 fail_p=0.3),
     'C19': dict(monitors=['C19'], profiles=('plain', 'switch', 'oneof', 'mixed', 'shared'), q=1800, t=20000),
@@ -284,6 +288,11 @@ def main_for(pid, tier_):
     items = corpus_items(prof['monitors']) + general_items(
         C.seed(), n, tier_, profiles=prof['profiles'], monitors_=prof['monitors'], enum_limit=enum,
         fail_p=prof.get('fail_p', 0.15), n_max=8 if tier_ == 'quick' else 10, modes=prof.get('modes', ('coro',)), n_min=prof.get('n_min', 3))
+    if prof.get('cbraise_p'):
+        # failing collaborators (an event callback or the artifact store raises) in a share of the programs
+        for it in items:
+            if 'spec' not in it:
+                it['cbraise_p'] = prof['cbraise_p']
     if prof.get('hold'):
         # C06: run to idleness, check, then let one body / timer complete (the other bodies stay held open)
         rng = random.Random(C.seed() * 37 + 5)
